@@ -360,3 +360,5 @@ def run(ctx):
         r16_5(ctx, b, m)
         r16_6(ctx, b, m)
     r16_4(ctx, b)
+    import ras
+    ras.r08_6(ctx)
